@@ -24,6 +24,7 @@ type Env struct {
 	pkg     string // package path for name resolution
 	recSelf *specFunInfo
 	rangeIter *ssa.Range
+	oldLazy func(name string, st *State) (TV, bool) // name resolution inside old(...) when it differs from the default (iteration clauses)
 	iterOld *State // state at the head of the innermost loop around the current program point (for iterold(e))
 	inApply bool // translating the expression of an `apply` clause: lemma calls denote (requires ==> ensures)
 }
@@ -321,6 +322,22 @@ func (f *FnVC) trExpr(env *Env, e SExpr) TV {
 		}
 		// in loop envs, old(x) for a parameter x means its entry value
 		lz := env.lazy
+		if env.oldLazy != nil {
+			// iteration clauses: old(x) is x at the beginning of the iteration (the loop-head values)
+			n.vars = map[string]TV{}
+			n.lazy = env.oldLazy
+			r := f.trExpr(n, x.X)
+			if r.Sort == sliceSort && env.inQuant == 0 && f.sliceSt[r.T] == nil {
+				if f.sliceSt == nil {
+					f.sliceSt = map[string]*State{}
+				}
+				c := f.freshConst("oldsl", sliceSort)
+				f.fact(sEq(c, r.T))
+				f.sliceSt[c] = env.old
+				r.T = c
+			}
+			return r
+		}
 		n.lazy = func(name string, st *State) (TV, bool) {
 			if tv, ok := f.paramTV[name]; ok {
 				return tv, true
